@@ -124,13 +124,20 @@ extern struct ghost g;
 extern struct ghost_cfg gc;
 extern char **environ;
 
-#define FD_OK(fd) ((fd) >= 0 && (fd) < VERIF_NFD)
-#define BIT(fd) (1u << (fd))
-#define IS_OPEN(fd) (FD_OK(fd) && (g.open & BIT(fd)) != 0)
-#define IS_LIB(fd) (FD_OK(fd) && (g.lib & BIT(fd)) != 0)
+/* Branch-free (no && / || / ?:): contract clauses built from these compile to
+   straight-line code, which keeps CBMC's symbolic execution of the (many,
+   large) clauses cheap. All operands are side-effect free. */
+#define FD_OK(fd) (((fd) >= 0) & ((fd) < VERIF_NFD))
+#define BIT(fd) (1u << ((unsigned) (fd) & 31u))
+#define IS_OPEN(fd) ((unsigned) FD_OK(fd) & ((g.open >> ((unsigned) (fd) & 31u)) & 1u))
+#define IS_LIB(fd) ((unsigned) FD_OK(fd) & ((g.lib >> ((unsigned) (fd) & 31u)) & 1u))
 /* mask of a descriptor that may be -1 (invalid): 0 then */
-#define MASK_OF(fd) (FD_OK(fd) ? BIT(fd) : 0u)
+#define MASK_OF(fd) ((unsigned) FD_OK(fd) << ((unsigned) (fd) & 31u))
+/* short-circuit implication: use when b is only safe to evaluate under a */
 #define IMPLIES(a, b) (!(a) || (b))
+/* branch-free implication / conjunction helpers for pure operands */
+#define IMPL(a, b) ((unsigned) !(a) | (unsigned) ((b) != 0))
+#define B(x) ((unsigned) ((x) != 0))
 
 /* legal wait status without WUNTRACED: exited(c) or signaled(s[, core]) */
 #define WST_EXITED(w) (((w) & 0x7f) == 0)
